@@ -104,6 +104,13 @@ impl<'ast> syn::visit::Visit<'ast> for AssignFinder {
         self.note(&a.left);
         syn::visit::visit_expr_assign(self, a);
     }
+    fn visit_expr_reference(&mut self, r: &'ast syn::ExprReference) {
+        // `&mut x` handed to a `&mut self` method called by path: the callee's new `self` is written back to `x`
+        if r.mutability.is_some() {
+            self.note(&r.expr);
+        }
+        syn::visit::visit_expr_reference(self, r);
+    }
     fn visit_expr_binary(&mut self, b: &'ast syn::ExprBinary) {
         use BinOp::*;
         if matches!(
